@@ -219,16 +219,17 @@ func (l *List) M__setitem__(key, value Object) (Object, error) {
 				// l[5:2] = v inserts before 5 and replaces nothing
 				stop = start
 			}
-			// Make a copy of the tail
-			tailSlice := l.Items[stop:]
-			tail := make([]Object, len(tailSlice))
-			copy(tail, tailSlice)
-			l.Items = l.Items[:start]
-			err = l.ExtendSequence(value)
+			// Read the whole value before touching the list: it may
+			// be the list itself, or fail to iterate part way through
+			newItems, err := SequenceTuple(value)
 			if err != nil {
 				return nil, err
 			}
-			l.Items = append(l.Items, tail...)
+			items := make([]Object, 0, len(l.Items)-(stop-start)+len(newItems))
+			items = append(items, l.Items[:start]...)
+			items = append(items, newItems...)
+			items = append(items, l.Items[stop:]...)
+			l.Items = items
 		} else {
 			newItems, err := SequenceTuple(value)
 			if err != nil {
